@@ -5,3 +5,4 @@ import SqlcModel.Props.C17
 import SqlcModel.Props.C04
 import SqlcModel.Props.C11
 import SqlcModel.Props.C12
+import SqlcModel.Props.C19
